@@ -8,6 +8,7 @@ import (
 	"strconv"
 
 	enc "github.com/DataDog/sketches-go/ddsketch/encoding"
+	"github.com/DataDog/sketches-go/ddsketch/pb/sketchpb"
 	"github.com/DataDog/sketches-go/ddsketch/store"
 
 	"verif/mc"
@@ -82,6 +83,74 @@ type StoreWorld struct {
 	// operation left out (C14); otherwise the twin executes Clear as "replace by
 	// a new object" (C15).
 	SkipReads bool
+	// a protobuf message held across operations (taken by opHold, consumed by
+	// opMergeHeld), its twin, and the reference content at the time it was taken
+	H, HT *sketchpb.Store
+	HM    *model.MapStore
+}
+
+// the world the operation being applied belongs to (operations that need more
+// than the slots: the held message)
+var curStoreWorld *StoreWorld
+
+// opHold: m = s.ToProto(), kept while other operations run.
+func opHold(s int) storeOp {
+	return storeOp{name: fmt.Sprintf("m = %s.ToProto()", slotName(s)), tag: "hold",
+		real: func(st []store.Store, _ []Kind, twin bool) {
+			pb := st[s].ToProto()
+			if twin {
+				curStoreWorld.HT = pb
+			} else {
+				curStoreWorld.H = pb
+			}
+		},
+		mod: func(w *StoreWorld) {
+			w.HM = w.K[s].Model()
+			w.HM.N = 0 // the message holds the bins as they are, whatever store they go to next
+			w.M[s].CopyInto(w.HM)
+		}}
+}
+
+// opMergeHeld: store.MergeWithProto(t, m) with the message taken earlier.
+func opMergeHeld(t int) storeOp {
+	return storeOp{name: fmt.Sprintf("store.MergeWithProto(%s, m)", slotName(t)), tag: "proto", writes: 1 << uint(t),
+		real: func(st []store.Store, _ []Kind, twin bool) {
+			pb := curStoreWorld.H
+			if twin {
+				pb = curStoreWorld.HT
+			}
+			if pb != nil {
+				store.MergeWithProto(st[t], pb)
+			}
+		},
+		mod: func(w *StoreWorld) {
+			if w.HM != nil {
+				w.M[t].MergeFrom(w.HM)
+			}
+		}}
+}
+
+func dumpHeld(d *mc.Dumper, pb *sketchpb.Store) {
+	if pb == nil {
+		d.Tag('-')
+		return
+	}
+	d.Tag('m')
+	ks := make([]int, 0, len(pb.BinCounts))
+	for k := range pb.BinCounts {
+		ks = append(ks, int(k))
+	}
+	sort.Ints(ks)
+	for _, k := range ks {
+		d.Int(k)
+		d.F64(pb.BinCounts[int32(k)])
+	}
+	d.Tag('/')
+	d.Int(int(pb.ContiguousBinIndexOffset))
+	for _, c := range pb.ContiguousBinCounts {
+		d.F64(c)
+	}
+	d.Tag('|')
 }
 
 type storeOp struct {
@@ -362,6 +431,7 @@ func withOrder(o storeOp, ord mapOrder) storeOp {
 
 func (o storeOp) toOp() mc.Op[*StoreWorld] {
 	return mc.Op[*StoreWorld]{Name: o.name, Writes: o.writes, Do: func(w *StoreWorld) {
+		curStoreWorld = w
 		o.real(w.R, w.K, false)
 		if w.T != nil {
 			if !w.SkipReads {
@@ -561,6 +631,19 @@ func (sp *StoreScenarioSpec) Build() *mc.Scenario[*StoreWorld] {
 			for _, k := range w.M[i].Keys() {
 				d.Int(k)
 				d.F64(w.M[i].M[k])
+			}
+			d.Tag('|')
+		}
+		if w.H != nil || w.HT != nil {
+			dumpHeld(d, w.H)
+			dumpHeld(d, w.HT)
+			// the reference content of the held message is part of the state (a message
+			// that aliases its store looks like one taken later)
+			if w.HM != nil {
+				for _, k := range w.HM.Keys() {
+					d.Int(k)
+					d.F64(w.HM.M[k])
+				}
 			}
 			d.Tag('|')
 		}
